@@ -10,7 +10,9 @@ using refmap::LMap;
 const char* const PROP_ID = "C06";
 
 namespace {
+bool g_write_via_file = false;   // per case: serialise through Map::Write(filename) instead of a memory writer
 std::vector<uint8_t> write_map(const Map& m) {
+	if (g_write_via_file) { std::string p = scratch_path("c06_w.map"); remove(p.c_str()); m.Write(p); std::vector<uint8_t> out; V_CHECK(read_file(p, out), "Map::Write(filename) produced no file"); return out; }
 	Stream::DynamicMemoryWriter w; m.Write(w);
 	std::vector<uint8_t> out(w.Length()); auto r = w.GetReader(); r.Read(out.data(), out.size());
 	return out;
@@ -36,6 +38,7 @@ void map_case(const LMap& m0, Tape& t, Stats& st) {
 	refmap::Layout L;
 	std::vector<uint8_t> in = refmap::encode(m, &L);
 	bool viaFile = t.below(4) == 0;
+	g_write_via_file = t.below(5) == 0; if (g_write_via_file) st.cls("write_via_file");
 	Map map;
 	if (viaFile) { std::string p = scratch_path("c06.map"); write_file(p, in); map = Map::ReadMap(p); }
 	else map = read_mem(in);
